@@ -85,12 +85,14 @@ pub fn iter_mut_proto<T: Q, const N: usize>(via_ref: bool) {
         let mut step = 0;
         while step < N + 2 {
             let remaining = N - yielded;
-            if <T::IterMut<'_> as MutIt>::EXACT {
-                assert!(it.exact_len() == remaining, "ITER: iter_mut len() is the number of elements still to come");
+            if let Some(l) = it.declared_len() {
+                // the type declares an exact size (in /repo's current source)
+                assert!(l == remaining, "ITER: iter_mut len() is the number of elements still to come");
                 assert!(
                     it.size_hint() == (remaining, Some(remaining)),
                     "ITER: iter_mut size_hint() is exact"
                 );
+                cover!(true, "iter_mut declares an exact size");
             }
             let back = if <T::IterMut<'_> as MutIt>::DOUBLE_ENDED { sym::bool() } else { false };
             used_back |= back;
@@ -288,8 +290,9 @@ pub fn sorted_iter<T: Q, const N: usize>(tables: Tables) {
     let mut used_front = false;
     while step < N + 2 {
         let remaining = N - yielded;
-        if T::DOUBLE {
-            assert!(it.exact_len() == remaining, "SORT: len() is the number of elements remaining");
+        if let Some(l) = it.declared_len() {
+            assert!(l == remaining, "SORT: len() is the number of elements remaining");
+            assert!(it.size_hint() == (remaining, Some(remaining)), "SORT: size_hint() is exact");
         }
         let back = if T::DOUBLE { sym::bool() } else { false };
         let r = if back { it.back() } else { it.next() };
@@ -340,8 +343,8 @@ pub fn sorted_steps<T: Q, const N: usize, const K: usize>(tables: Tables) {
     let mut ends_differ = false;
     let mut first_back = false;
     while step < K {
-        if T::DOUBLE {
-            assert!(it.exact_len() == N - yielded, "SORT: len() is the number of elements remaining");
+        if let Some(l) = it.declared_len() {
+            assert!(l == N - yielded, "SORT: len() is the number of elements remaining");
         }
         let back = if T::DOUBLE { sym::bool() } else { false };
         if step == 0 {
